@@ -20,9 +20,12 @@ def run(ctx):
     for trial in range(n_tx):
         net = rng.choice(nets) if rng.random() < 0.5 else 'bitcoin'
         big = T and trial % 40 == 0
+        # some transaction OBJECTS are created as 'legacy' although they get segwit inputs (a legacy wallet with a segwit key): the
+        # library may refuse to hash / sign such an input, but it must not sign another digest
+        legacy_typed = (not big) and trial % 7 == 3
         t, d = txgen.build_api_tx(rng, network=net, nin=(rng.choice([252, 253, 254]) if big else None),
                                   nout=(rng.choice([252, 253, 254]) if big and rng.random() < 0.5 else None),
-                                  max_n=(15 if T and trial % 10 == 0 else 4))
+                                  max_n=(15 if T and trial % 10 == 0 else 4), tx_witness_type='legacy' if legacy_typed else 'segwit')
         d['version'] = t.version_int
         raw = txgen.ser_tx(d)
         for i, m in enumerate(d['meta']):
@@ -31,6 +34,9 @@ def run(ctx):
                     h = t.signature_hash(i, ht, t.inputs[i].witness_type).hex()
                 except Exception as e:
                     h = 'raise:' + type(e).__name__
+                if legacy_typed and h.startswith('raise:') and m['wt'] == 'segwit':
+                    ctx.count('legacy-typed-transaction-refuses-segwit-input')
+                    continue
                 cases.append(('sighash %s %d %s %d %d %s' % (raw.hex(), i, hexp(m['sc']), m['val'], ht, m['wt']), h, True))
         # history: the transaction object is changed IN PLACE after digests were computed (same numbers of inputs and outputs);
         # the digests computed afterwards must be those of the transaction as it now is
@@ -61,6 +67,8 @@ def run(ctx):
                 except Exception as e:
                     h = 'raise:' + type(e).__name__
                 ctx.count('digest-after-in-place-edit')
+                if legacy_typed and h.startswith('raise:') and m['wt'] == 'segwit':
+                    continue
                 cases.append(('sighash %s %d %s %d %d %s' % (raw2.hex(), i, hexp(m['sc']), m['val'], 1, m['wt']), h, True))
             d = dict(d2, meta=d['meta'])
             raw = raw2
@@ -71,6 +79,9 @@ def run(ctx):
                     t.sign(m['keys'], index_n=i)
                 ok = t.verify()
             except Exception as e:
+                if legacy_typed and isinstance(e, AssertionError):
+                    ctx.count('legacy-typed-transaction-refuses-to-sign-segwit-input')
+                    continue
                 ctx.violation('signing a standard transaction raised', {'op': 'sign', 'error': repr(e), 'raw': raw.hex()})
                 continue
             if not ok:
